@@ -4,7 +4,9 @@ use crate::cosmwasm_std::{Storage, StdError, StdResult};
 use crate::std_ext::IntoStr;
 use crate::vspec::StoreView;
 verus! {
+#[derive(Debug)]
 pub struct ContractVersion { pub contract: String, pub version: String }
+#[derive(Debug)]
 pub enum VersionError {
     Std(StdError), NotFound, WrongContract { expected: String, found: String }, WrongVersion { expected: String, found: String },
 }
